@@ -2,6 +2,7 @@ package prop
 
 import (
 	"fmt"
+	"net/netip"
 	"regexp"
 	"sort"
 	"strings"
@@ -346,6 +347,7 @@ func ExecPlan(cs *CiscoCase, p Plan, keepStates bool, stepwise bool) *Outcome {
 			return o
 		}
 		newR := routeDsts(n.Conf, sc)
+		oldC, newC := routeCover(cs.A, sc), routeCover(n.Conf, sc)
 		// The statement does not cover edits to the membership of an
 		// object-group: ACLs that use such a group (before or after) are
 		// not judged.
@@ -437,6 +439,15 @@ func ExecPlan(cs *CiscoCase, p Plan, keepStates bool, stepwise bool) *Outcome {
 					o.Step = fmt.Sprintf("after step %d %q: destination %q has no route although it has one before and after",
 						i+1, cmd.Line, d)
 					o.StepKey = "route-lost"
+					return o
+				}
+			}
+			curC := routeCover(st.conf, sc)
+			for a := range oldC {
+				if newC[a] && !curC[a] {
+					o.Step = fmt.Sprintf("after step %d %q: address %s is covered by a route before and after but by none now",
+						i+1, cmd.Line, a)
+					o.StepKey = "route-coverage-lost"
 					return o
 				}
 			}
@@ -609,4 +620,47 @@ func editedGroups(a *cisco.Conf, script []Cmd) map[string]bool {
 		cur = ""
 	}
 	return res
+}
+
+// routeCover tells for each probe address whether a route of the families the
+// target speaks about covers it (per family / VRF).
+func routeCover(c *cisco.Conf, sc *cisco.Scope) map[string]bool {
+	m := map[string]bool{}
+	for _, o := range c.Objs {
+		if o.Opaque {
+			continue
+		}
+		fam := cisco.RouteFam(c.Kind, o.Head)
+		if fam == "" || !sc.RouteFams[fam] || strings.HasPrefix(fam, "ipv6") {
+			continue
+		}
+		f := strings.Fields(o.Head)
+		// ... DST MASK HOP: the two fields before the hop.
+		if c.Kind == "ASA" && len(f) >= 5 {
+			f = f[:5]
+		}
+		if len(f) < 4 {
+			continue
+		}
+		ip, err1 := netip.ParseAddr(f[len(f)-3])
+		mask, err2 := netip.ParseAddr(f[len(f)-2])
+		if err1 != nil || err2 != nil {
+			continue
+		}
+		bits := 0
+		for _, b := range mask.As4() {
+			for i := 7; i >= 0; i-- {
+				if b&(1<<uint(i)) != 0 {
+					bits++
+				}
+			}
+		}
+		p := netip.PrefixFrom(ip, bits)
+		for _, a := range gen.RouteProbes() {
+			if p.Contains(a) {
+				m[fam+" "+a.String()] = true
+			}
+		}
+	}
+	return m
 }
